@@ -109,9 +109,84 @@ def run_stale_backup(case, ctx):
     return {"mismatches": mms, "classes": ["stale_backup_leftover"], "nontrivial": True}
 
 
+def _flat(doc, root=""):
+    out = {}
+    for k, v in doc.items():
+        if isinstance(v, dict):
+            out.update(_flat(v, root + k + "."))
+        else:
+            out[root + k] = v
+    return out
+
+
+def run_cli_keys(case, ctx):
+    """The command line front end of the key strategies (`signac sync SRC DST -k REGEX | --all-keys | --no-keys`):
+    a conflicting key is overwritten iff the key strategy selects it -- for -k: iff the regular expression matches
+    at the start of the dotted key, as DocSync.ByKey(regex) does."""
+    import contextlib
+    import io
+    import json as _json
+    import os
+    import re
+    import sys
+
+    import signac
+    from signac import __main__ as cli
+
+    mms = []
+    base = ctx.tmpdir("c14k")
+    argv0, cwd0 = list(sys.argv), os.getcwd()
+    try:
+        a = signac.init_project(os.path.join(base, "src"))
+        b = signac.init_project(os.path.join(base, "dst"))
+        src_doc, dst_doc = case.get("src_doc") or {}, case.get("dst_doc") or {}
+        ja, jb = a.open_job({"a": 0}).init(), b.open_job({"a": 0}).init()
+        for fn, d in ((ja.fn(ja.FN_DOCUMENT), src_doc), (jb.fn(jb.FN_DOCUMENT), dst_doc), (a.fn(a.FN_DOCUMENT), src_doc), (b.fn(b.FN_DOCUMENT), dst_doc)):
+            with open(fn, "w") as f:
+                f.write(_json.dumps(d))
+        how = case.get("how", "key")
+        flag = {"key": ["-k", str(case.get("regex", "x"))], "all": ["--all-keys"], "none": ["--no-keys"]}[how]
+        sys.argv = ["signac", "sync", a.path, b.path] + flag
+        err = io.StringIO()
+        code = None
+        try:
+            with contextlib.redirect_stderr(err), contextlib.redirect_stdout(io.StringIO()):
+                cli.main()
+        except SystemExit as e:
+            code = e.code
+        what = f"`signac sync SRC DST {' '.join(flag)}` over documents {src_doc!r} -> {dst_doc!r}"
+        if code != 0:
+            mms.append(Mismatch("cli_sync_fails", f"{what} exited with {code!r}: {err.getvalue().strip()[-200:]}"))
+            return {"mismatches": mms, "classes": ["cli_key_strategy"], "nontrivial": True}
+        fs, fd = _flat(src_doc), _flat(dst_doc)
+        select = {"key": lambda k: re.match(str(case.get("regex", "x")), k) is not None, "all": lambda k: True, "none": lambda k: False}[how]
+        fresh = signac.Project(b.path)
+        for name, got in (("job document", fresh.open_job(id=jb.id).document()), ("project document", fresh.document())):
+            fg = _flat(got)
+            for k in sorted(set(fs) & set(fd)):
+                # (a conflict between a mapping and a plain value is outside the statement)
+                if fs[k] == fd[k] or any(x.startswith(k + ".") for x in list(fs) + list(fd)):
+                    continue
+                want = fs[k] if select(k) else fd[k]
+                if fg.get(k, "<missing>") != want:
+                    mms.append(Mismatch(
+                        "key_overwritten_unselected" if not select(k) else "key_not_overwritten_selected",
+                        f"{what}: {name} key {k!r} is {fg.get(k, '<missing>')!r}; the key strategy {'selects' if select(k) else 'does not select'} it (source {fs[k]!r}, destination {fd[k]!r})"))
+            for k in sorted(set(fd) - set(fs)):
+                if not any(x.startswith(k + ".") or k.startswith(x + ".") for x in fs) and fg.get(k, "<missing>") != fd[k]:
+                    mms.append(Mismatch("p3_doc_key", f"{what}: {name} destination-only key {k!r} became {fg.get(k, '<missing>')!r}"))
+    finally:
+        sys.argv = argv0
+        os.chdir(cwd0)
+        shutil.rmtree(base, ignore_errors=True)
+    return {"mismatches": mms, "classes": ["cli_key_strategy"], "nontrivial": True}
+
+
 def run_case(case, ctx):
     if case.get("kind") == "stale_backup":
         return run_stale_backup(case, ctx)
+    if case.get("kind") == "cli_keys":
+        return run_cli_keys(case, ctx)
     plan = sp.analyse(case)
     base, src_root, dst_root = sp.build_pair(ctx, plan, "c14")
     try:
@@ -402,4 +477,13 @@ def run(ctx):
     drive(ctx, st.fixed_dictionaries({
         "kind": st.just("stale_backup"), "level": st.sampled_from(["job", "project"]), "src_doc": docs, "dst_doc": docs, "stale": docs,
         "doc_sync": st.sampled_from(["bykey_none", "bykey_none", "update"]),
+    }), 40 if ctx.tier == "quick" else 400, ctx.apply)
+    # the command line front end of the key strategies
+    leaf = st.sampled_from([0, 1, "s", [1]])
+    sub = st.dictionaries(st.sampled_from(["a", "k", "x"]), leaf, min_size=1, max_size=2)
+    # (a key is a plain value or a mapping on both sides: mixed pairs raise TypeError, outside the statement)
+    cdocs = st.fixed_dictionaries({}, optional={"a": leaf, "ab": leaf, "ba": leaf, "x": leaf, "n": sub, "na": sub}).filter(bool)
+    drive(ctx, st.fixed_dictionaries({
+        "kind": st.just("cli_keys"), "how": st.sampled_from(["key", "key", "key", "all", "none"]), "regex": st.sampled_from(["a", "x", "n", "n\\.a", ".*a", "(n\\.)?a", "b", "a$", ".*"]),
+        "src_doc": cdocs, "dst_doc": cdocs,
     }), 40 if ctx.tier == "quick" else 400, ctx.apply)
